@@ -199,7 +199,11 @@ PoolC05 == <<
   [W("/ab_") EXCEPT !.pos = {"image"}], [W("/ab.") EXCEPT !.party = "3p"],
   [W("/ab-") EXCEPT !.dom = {"ba.com"}], [W("ab.ba/ab_") EXCEPT !.left = "dpipe"],
   [W("/ab-") EXCEPT !.mkind = "redirect", !.mval = "r1"], [W("/ab_") EXCEPT !.mkind = "redirect-rule", !.mval = "r2"],
-  [W("/ab_") EXCEPT !.mkind = "removeparam", !.mval = "ab"], [W("/ab-") EXCEPT !.mkind = "removeparam", !.mval = "ba"]
+  [W("/ab_") EXCEPT !.mkind = "removeparam", !.mval = "ab"], [W("/ab-") EXCEPT !.mkind = "removeparam", !.mval = "ba"],
+  \* pattern-less catch-all rules next to token-less patterned rules with the same option mask (all of them
+  \* live in the fallback bucket; a fused group with a match-all member must still match everything)
+  [W("*") EXCEPT !.pos = {"image"}], [W("/a*b") EXCEPT !.pos = {"image"}], [W("a*-") EXCEPT !.pos = {"image"}],
+  [W("*") EXCEPT !.exc = TRUE, !.pos = {"font"}], [W("/a*b") EXCEPT !.exc = TRUE, !.pos = {"font"}], [W("*") EXCEPT !.pos = {"font"}]
 >>
 ReqsC05 == <<
   MkReq("https", "ab.ba", "/ab-", "script", "x.com"),
@@ -208,7 +212,10 @@ ReqsC05 == <<
   MkReq("https", "ab.ba", "/x-ab-", "script", "ba.com"),
   MkReq("https", "ab.ba", "/ab/ba", "script", "x.com"),
   MkReq("https", "ab.ba", "/ab-x/ba?ab=1&ba=2", "xhr", "x.com"),
-  MkReq("https", "x.com", "/ab_", "image", "x.com")
+  MkReq("https", "x.com", "/ab_", "image", "x.com"),
+  MkReq("https", "x.com", "/x-", "image", "ba.com"),
+  MkReq("https", "x.com", "/x-", "font", "ba.com"),
+  MkReq("https", "x.com", "/a-b", "font", "x.com")
 >>
 
 --------------------------------------------------------------------------
